@@ -433,6 +433,12 @@ func RunC09(t *testing.T, tape *Tape) *Outcome {
 		return "unknown"
 	}
 
+	// With a concurrent twin evaluation, the code of either evaluation that runs in
+	// the shared root frame may resume when the other evaluation starts and
+	// refreshes the root frame's run id: the listed finding ("follow-up=at-once"),
+	// with the twin in the role of the next evaluation. Not judged a second time;
+	// the goroutines started by both evaluations are.
+	twinRoot := func(tk *Task) bool { return twin && (tk.Name == rootName || tk.Name == "c1.0") }
 	// I1
 	want := wantErr
 	if clientPanic != nil {
@@ -459,7 +465,7 @@ func RunC09(t *testing.T, tape *Tape) *Outcome {
 	}
 	// I3, I4
 	for _, tk := range tasks {
-		if tk.Client || !(strings.HasPrefix(tk.Name, "c0.") || strings.HasPrefix(tk.Name, "c1.")) || (r.TasksAtReturn > 0 && tk.idx >= r.TasksAtReturn) {
+		if tk.Client || !(strings.HasPrefix(tk.Name, "c0.") || strings.HasPrefix(tk.Name, "c1.")) || (r.TasksAtReturn > 0 && tk.idx >= r.TasksAtReturn) || twinRoot(tk) {
 			continue
 		}
 		if tk.OpsPostFault > 1 {
@@ -503,7 +509,7 @@ func RunC09(t *testing.T, tape *Tape) *Outcome {
 	// I9: a goroutine released from a channel operation by the cancellation starts
 	// no further operation (whenever that happens, before or after the return)
 	for _, tk := range tasks {
-		if tk.Client || !tk.ReleasedByDone || (r.TasksAtReturn > 0 && tk.idx >= r.TasksAtReturn) {
+		if tk.Client || !tk.ReleasedByDone || (r.TasksAtReturn > 0 && tk.idx >= r.TasksAtReturn) || twinRoot(tk) {
 			continue
 		}
 		if earlyFollow && tk.Name == rootName {
@@ -526,11 +532,11 @@ func RunC09(t *testing.T, tape *Tape) *Outcome {
 		o.Violations = nil
 		return o
 	}
-	if r.BudgetHit {
+	if r.BudgetHit && !twin {
 		o.addV("C09", "I5", "I5 still-running phase="+phase, "tasks kept executing after the cancellation until the step budget was exhausted")
 	}
 	for _, tk := range tasks {
-		if tk.Client || !(strings.HasPrefix(tk.Name, "c0.") || strings.HasPrefix(tk.Name, "c1.")) || (r.TasksAtReturn > 0 && tk.idx >= r.TasksAtReturn) || !contains(res.Left, tk.Name) || r.BudgetHit {
+		if tk.Client || !(strings.HasPrefix(tk.Name, "c0.") || strings.HasPrefix(tk.Name, "c1.")) || (r.TasksAtReturn > 0 && tk.idx >= r.TasksAtReturn) || !contains(res.Left, tk.Name) || r.BudgetHit || twinRoot(tk) {
 			continue
 		}
 		sig := fmt.Sprintf("I5 goroutine-not-exited phase=%s body=%s", phase, kindOf(tk))
@@ -557,6 +563,11 @@ func RunC09(t *testing.T, tape *Tape) *Outcome {
 			if !r.BudgetHit {
 				o.addV("C09", "I8", "I8 concurrent-evaluation never-returned", "the second EvalWithContext under the same context did not return after the cancellation")
 			}
+		case retT.err == nil:
+			// the twin's evaluation was ended by the first caller's stop(); its own
+			// caller then finds both its context cancelled and its evaluation over,
+			// and the (native) select of the entry point may take either branch: the
+			// Go runtime chooses, not the simulator, and no property decides
 		case retT.err != wantErr:
 			o.addV("C09", "I8", "I8 concurrent-evaluation wrong-error", "the second EvalWithContext under the same context returned %v (value %v), want %v", retT.err, retT.v, wantErr)
 		}
